@@ -26,6 +26,8 @@ def run(ck):
         if l.startswith("propfail hist "):
             k = l.split()[2]
             ck.fail_input("store_map", l, [hist.get(k, ""), l])
+        elif l.startswith("propfail conc "):
+            ck.fail_input("concurrent_allocation", l, [x for x in ex if x.startswith("conc " + l.split("start=")[1].split()[0] + " ")][:1] + [l])
         elif l.startswith("diff "):
             tie_only.append(l)
     if tie_only and not direct_fail:
